@@ -45,7 +45,7 @@ CHECKS = {
    text='Comparison records (< = > <= >=, binary and variadic, min max zero? positive? negative?) over the C08 palette extended with doubles (near 2^53 and 2^63, +-0.0, subnormals, infinities, neighbours of exact values) in every representation; TLC decides each truth value from the exact mathematical values, so trichotomy, consistency, transitivity and the variadic rule are consequences checked per record.',
    note='NaN excluded. min/max judged by value only.', ref='5 C09'),
  'C12': dict(cat='model_checking', tech='exhaustive TLC model check of the collector model MarwoodGC + trace validation of heap snapshots and capacity events against GCPreds',
-   text='MarwoodGC.tla (cells Free/Allocated/Used, free list, intern table, roots, 1.5x growth policy, stop-the-world mark with worklist and sweep) is model checked exhaustively for small heaps: Safety, Exactness after sweep, FreeListOK, InternOK, MarksReset, marking terminates. The same predicates (GCPreds.tla) validate snapshots taken before marking and after sweeping at natural and forced collections of the real VM: exactly the allocated cells reachable from the roots survive, survivors unchanged, free list = free cells without duplicates, intern table = symbol cells. Garbage loops (16 allocation kinds, among them loops driven in slices, continuation chains handed on by the receiver, delay-force chains, top-level forms with fresh local names and bulk-builtin bursts, x live sizes 0/10/1000/4000 - the last beyond one 8192-cell chunk - x n and 10n iterations) must follow the growth policy, end with capacity(10n) = capacity(n) and stay under the bound derived from the live data.',
+   text='MarwoodGC.tla (cells Free/Allocated/Used, free list, intern table, roots, 1.5x growth policy, stop-the-world mark with worklist and sweep) is model checked exhaustively for small heaps: Safety, Exactness after sweep, FreeListOK, InternOK, MarksReset, marking terminates. The same predicates (GCPreds.tla) validate snapshots taken before marking and after sweeping at natural and forced collections of the real VM: exactly the allocated cells reachable from the roots survive, survivors unchanged, free list = free cells without duplicates, intern table = symbol cells. Garbage loops (17 allocation kinds, among them runs of failing evaluations, loops driven in slices, continuation chains handed on by the receiver, delay-force chains, top-level forms with fresh local names and bulk-builtin bursts, x live sizes 0/10/1000/4000 - the last beyond one 8192-cell chunk - x n and 10n iterations) must follow the growth policy, end with capacity(10n) = capacity(n) and stay under the bound derived from the live data.',
    note='The projection of raw cells to out-edges and roots (harness/src/snap.rs) is trusted; it is written from the meaning of the cell kinds, not from heap.rs. The abstract model is checked for heaps of at most 3 cells (quick) / with liveness (thorough).', ref='5 C12'),
  'C16': dict(cat='model_checking', tech='trace validation of number<->string records against NumTower (digit strings and rounding intervals specified in TLA+) with TLC',
    text='Records (z, radix, number->string, string->number of it, the prefixed source literal) over the C08/C09 palettes, random fixnums, bignums, rationals at radix 2/8/10/16 and finite doubles by bit pattern at radix 10. TLC checks the read-back equals z with the same exactness, the literal denotes the same value, and - independently of the reader - that the printed digits denote z (Horner value for exact numbers, rounding interval for doubles).',
